@@ -226,8 +226,8 @@ var c06evName = [...]string{"reqOK", "reqFail", "chkOK", "chkErr", "chkBadStatus
 type c06model struct {
 	F, S     int
 	in       bool // in rotation
-	lo       int  // consecutive request failures since the last request success / return to rotation
-	hi       int  // consecutive request failures since the last request success (returns do not reset)
+	lo       int  // consecutive request failures since the last request success / (re-)entry into rotation
+	fresh    bool // the backend came back into rotation and no request has succeeded since
 	okRun    int  // consecutive successful health checks since the backend went out / last failed check
 	released bool
 	dialsAtRelease int
@@ -248,10 +248,9 @@ func (m *c06model) step(ev int, before, after c06obs) (sig, detail, class string
 	cameIn := !before.avail && after.avail
 	switch ev {
 	case evReqOK:
-		m.lo, m.hi = 0, 0
+		m.lo, m.fresh = 0, false
 	case evReqFail:
 		m.lo++
-		m.hi++
 	case evChkOK:
 		m.okRun++
 	case evChkErr, evChkBad, evChkTimeout:
@@ -275,22 +274,27 @@ func (m *c06model) step(ev int, before, after c06obs) (sig, detail, class string
 	}
 	// clause 1: out of rotation exactly when consecutive request failures reach the threshold
 	if ev == evReqFail && before.avail {
-		must := m.lo >= m.F // reached, counting from the last success / return to rotation
-		may := m.hi >= m.F  // reached, if failures seen while out of rotation still count
+		// the count restarts when the backend (re-)enters rotation: failures seen while it was out
+		// of rotation do not count against it afterwards
+		must := m.lo >= m.F
+		when := ""
+		if m.fresh {
+			when = ":after-recovery" // no request success since the backend came back
+		}
 		switch {
-		case wentOut && !must && !may:
-			return "threshold:out-before-reached", fmt.Sprintf("taken out of rotation after %d consecutive request failure(s), FailNum=%d", m.lo, m.F), class
+		case wentOut && !must:
+			return "threshold:out-before-reached" + when, fmt.Sprintf("taken out of rotation after %d consecutive request failure(s) since the last request success / return to rotation, FailNum=%d", m.lo, m.F), class
 		case !wentOut && must:
-			return "threshold:in-rotation-after-reached", fmt.Sprintf("still in rotation after %d consecutive request failures, FailNum=%d", m.lo, m.F), class
+			return "threshold:in-rotation-after-reached" + when, fmt.Sprintf("still in rotation after %d consecutive request failures, FailNum=%d", m.lo, m.F), class
+		}
+		if when != "" {
+			when += fmt.Sprintf(":F%dS%d", m.F, m.S) // vacuity: which configurations reach recovery + failure
 		}
 		if wentOut {
 			m.in, m.okRun = false, 0
-			if must {
-				return "", "", "reqFail:out@threshold"
-			}
-			return "", "", "reqFail:out(failures-while-out-counted)"
+			return "", "", "reqFail:out@threshold" + when
 		}
-		return "", "", "reqFail:in<threshold"
+		return "", "", "reqFail:in<threshold" + when
 	}
 	if wentOut {
 		return "threshold:out-without-request-failure:" + c06evName[ev], fmt.Sprintf("event %s took the backend out of rotation", c06evName[ev]), class
@@ -303,7 +307,7 @@ func (m *c06model) step(ev int, before, after c06obs) (sig, detail, class string
 		if m.okRun < m.S {
 			return "return:before-succnum", fmt.Sprintf("back in rotation after %d consecutive successful health check(s), SuccNum=%d", m.okRun, m.S), class
 		}
-		m.in, m.lo, m.okRun = true, 0, 0
+		m.in, m.lo, m.okRun, m.fresh = true, 0, 0, true
 		return "", "", "chkOK:return@succnum"
 	}
 	if ev == evChkOK {
@@ -320,7 +324,7 @@ func (m *c06model) step(ev int, before, after c06obs) (sig, detail, class string
 }
 
 func (m *c06model) key() string {
-	return fmt.Sprintf("m%v.%d.%d.%d.%v", m.in, m.lo, m.hi, m.okRun, m.released)
+	return fmt.Sprintf("m%v.%d.%v.%d.%v", m.in, m.lo, m.fresh, m.okRun, m.released)
 }
 
 // ---------------------------------------------------------------------------------------------
